@@ -31,6 +31,19 @@ def percent_spec(rng, form, n, pool, over=False):
         kw = rng.choice(WKW if form == "wt%" else VKW) if (i == 0 or rng.random() < 0.3) else "%"
         parts.append({"f": rng.choice(pool), "qs": qs, "q": qv(qs), "kw": kw})
     parts.append({"f": rng.choice(pool)})
+    shape = rng.random()
+    if not over and n == 2 and shape < 0.3:
+        # very unequal: the remainder left to the last component is tiny but not nothing
+        qs = rng.choice(["99.9999995", "99.99999", "99.999", "99.9999999"])
+        parts[0].update(qs=qs, q=qv(qs))
+    elif not over and shape < 0.2:
+        # the percentages are complete: the last component gets exactly nothing and vanishes, whatever it is
+        rest = 100.0 - sum(p["q"] for p in parts[:-1])
+        if n >= 3 and rest == int(rest) and rest > 0:
+            parts[-2].update(qs="%d" % (parts[-2]["q"] + rest) if parts[-2]["q"] == int(parts[-2]["q"]) else parts[-2]["qs"])
+            parts[-2]["q"] = qv(parts[-2]["qs"])
+            if sum(p["q"] for p in parts[:-1]) == 100.0:
+                parts[-1]["f"] = rng.choice(["H2O", "CaCO3", "C2H6O", "Si"])
     return {"form": form, "parts": parts, "sep": rng.choice([" // ", "//", " //", "// "])}
 
 
@@ -71,6 +84,8 @@ def tasks(ctx, quick):
             if rng.random() < 0.15:
                 e = ["mixw", [[["str", rng.choice(WITH_DENS)], 1], [["str", rng.choice(WITH_DENS)], rng.choice([1, 9, 0.1])]]]   # itself a mixture
             comps.append([e, rng.choice(quantities)])
+        if i % 5 == 2:      # a component of quantity zero vanishes whether or not its density is known
+            comps.insert(rng.randrange(len(comps) + 1), [["str", rng.choice(["H2O", "CaCO3", "C2H6O", "Fe2O3@5.24"])], 0])
         t = {"kind": "mix", "mode": mode, "comps": comps}
         if i % 17 == 0:
             t["density"] = 3.21
@@ -95,8 +110,9 @@ def tasks(ctx, quick):
         if r < 0.25 and form in ("wt%", "vol%"):
             # nested mixture as a component, possibly with its own density tag
             sub = percent_spec(rng, rng.choice(["wt%", "vol%"]), 2, WITH_DENS)
+            add({"kind": "mixstr", "spec": sub})          # the group is itself a mixture: checked on its own as well
             spec["parts"][rng.randrange(len(spec["parts"]))] = {"sub": sub, "qs": "20", "q": 20.0, "kw": spec["parts"][0].get("kw", "%") if True else "%",
-                                                                "dens": rng.choice(["", "@1.1", "@2n"])}
+                                                                "dens": rng.choice(["", "@1.1", "@2n", "@1.3i", "@0.9n"])}
             spec["parts"][0].setdefault("kw", rng.choice(WKW if form == "wt%" else VKW))
             if "qs" not in spec["parts"][0]:
                 spec["parts"][0]["qs"], spec["parts"][0]["q"] = "20", 20.0
@@ -107,9 +123,11 @@ def tasks(ctx, quick):
                 last.pop(kk, None)
         elif r < 0.3 and form == "abs":
             sub = abs_spec(rng, 2, allow_vol=False)
+            add({"kind": "mixstr", "spec": sub})
             spec["parts"][rng.randrange(len(spec["parts"]))] = {"sub": sub, "rep": rng.choice([1, 2, 3, 0.5])}
         elif r < 0.3 and form == "layer":
             sub = layer_spec(rng, 2)
+            add({"kind": "mixstr", "spec": sub})
             spec["parts"][rng.randrange(len(spec["parts"]))] = {"sub": sub, "rep": rng.choice([1, 2, 3, 10])}
         add({"kind": "mixstr", "spec": spec})
         if form in ("wt%", "vol%") and r >= 0.25 and i % 3 == 0 and not (i % 40 == 0 or i % 44 == 1):
